@@ -130,7 +130,7 @@ def run(ctx):
     for name in ("get", "get_mut", "define"):
         nrows += scopes.table(ctx, fb, "C01-innermost", name)
     if nrows < 24:
-        ctx.report("C01-innermost", "floor", "only %d rows of the scope-chain tables were evaluated" % nrows)
+        ctx.undecided("C01-innermost", "floor", "only %d rows of the scope-chain tables were evaluated" % nrows)
 
     # ------------------------------------------------------------------ C01-truthiness
     ctx.rule("C01-truthiness", "only #f is false: as_boolean table; every conditional branches on as_boolean(test)")
